@@ -10,10 +10,13 @@ import (
 	"net"
 	"net/http"
 	"os"
+	"path/filepath"
 	"runtime"
 	"sort"
 	"strconv"
+	"strings"
 	"sync"
+	"syscall"
 	"time"
 
 	"github.com/gorilla/websocket"
@@ -122,8 +125,18 @@ func childMain() {
 	}
 	if s.TmpDir != "" {
 		_ = os.MkdirAll(s.TmpDir, 0o755)
+		for _, f := range s.Fifos { // named pipes nobody reads from: opening one for writing blocks
+			_ = syscall.Mkfifo(filepath.Join(s.TmpDir, f), 0o600)
+		}
 	}
-	out := bufio.NewWriter(os.Stdout)
+	// the observations go to the parent over the pipe this process got as stdout; stdout itself is pointed at
+	// /dev/null, because a host started through vw.Stream() logs there
+	proto, _ := syscall.Dup(1)
+	if null, err := os.OpenFile("/dev/null", os.O_WRONLY, 0); err == nil {
+		_ = syscall.Dup2(int(null.Fd()), 1)
+		os.Stdout = null
+	}
+	out := bufio.NewWriter(os.NewFile(uintptr(proto), "observations"))
 	emit := func(o Obs) {
 		b, _ := json.Marshal(o)
 		out.Write(b)
@@ -139,9 +152,30 @@ func childMain() {
 		s.API = ctl.api
 		emit(Obs{APIUsed: s.API})
 	}
-	app := newApp(s.API)
 	port := lib.FreePorts(1)[0]
-	app.VerifStartHTTPServer(port)
+	var app *vw.App
+	if s.ViaStream {
+		// the real start-up path of `relay host`: configuration from the environment, vw.Stream() assembles and
+		// runs everything (and owns the process: signal handler, logging to stdout)
+		os.Setenv("VW_PORT", strconv.Itoa(port))
+		os.Setenv("VW_API", s.API)
+		lvl := s.LogLevel
+		if lvl == "" {
+			lvl = "PANIC"
+		}
+		os.Setenv("VW_LOGLEVEL", lvl)
+		go vw.Stream()
+		app = vw.VerifApp()
+	} else {
+		app = newApp(s.API)
+		app.VerifStartHTTPServer(port)
+		switch s.LogLevel {
+		case "trace":
+			log.SetLevel(log.TraceLevel)
+		case "debug":
+			log.SetLevel(log.DebugLevel)
+		}
+	}
 	base := "127.0.0.1:" + strconv.Itoa(port)
 	for i := 0; i < 400; i++ {
 		c, err := net.DialTimeout("tcp", base, 50*time.Millisecond)
@@ -151,6 +185,12 @@ func childMain() {
 		}
 		time.Sleep(5 * time.Millisecond)
 	}
+	if s.ViaStream {
+		for i := 0; i < 400 && (app.Hub == nil || app.Websocket == nil); i++ {
+			time.Sleep(5 * time.Millisecond)
+		}
+		time.Sleep(20 * time.Millisecond)
+	}
 	// observers of the api topic
 	tap := &hub.Client{Hub: app.Hub.Hub, Name: "verif-tap", Topic: "api", Send: make(chan hub.Message, 16384), Stats: hub.NewClientStats()}
 	app.Hub.Register <- tap
@@ -158,7 +198,7 @@ func childMain() {
 	var wsc *websocket.Conn
 	wsIn := make(chan []byte, 256)
 	if s.Mode == "ws" {
-		c, _, err := websocket.DefaultDialer.Dial("ws://"+base+"/ws/api", nil)
+		c, _, err := websocket.DefaultDialer.Dial("ws://"+base+"/ws/api", oddHeaders(s.Headers, 1))
 		if err != nil {
 			fmt.Fprintln(os.Stderr, "ws dial:", err)
 			os.Exit(3)
@@ -238,6 +278,9 @@ func childMain() {
 			}
 			if it.CType != "" {
 				req.Header.Set("Content-Type", it.CType)
+			}
+			for k, vs := range oddHeaders(s.Headers, len(it.Path)) {
+				req.Header[k] = vs
 			}
 			resp, err := hc.Do(req)
 			if err != nil {
@@ -319,7 +362,7 @@ func pipeSession(app *vw.App, base string, tap *hub.Client, s Session, emit func
 	var mu sync.Mutex
 	last := time.Now()
 	for c := 0; c < n; c++ {
-		conn, _, err := websocket.DefaultDialer.Dial("ws://"+base+"/ws/api", nil)
+		conn, _, err := websocket.DefaultDialer.Dial("ws://"+base+"/ws/api", oddHeaders(s.Headers, c))
 		if err != nil {
 			fmt.Fprintln(os.Stderr, "ws dial:", err)
 			os.Exit(3)
@@ -401,6 +444,25 @@ func pipeSession(app *vw.App, base string, tap *hub.Client, s Session, emit func
 	o.HasReply = true
 	emit(o)
 	runtime.KeepAlive(conns)
+}
+
+// oddHeaders: request headers a proxy chain or a tracing layer may add; none of them may change an answer
+func oddHeaders(on bool, k int) http.Header {
+	if !on {
+		return nil
+	}
+	xff := []string{"203.0.113.7", "203.0.113.7, 198.51.100.2, 10.0.0.1", "203.0.113.7:4711", "[2001:db8::7]:443", "[2001:db8::7", "", strings.Repeat("1.2.3.4, ", 450)}
+	h := http.Header{}
+	h.Set("X-Forwarded-For", xff[k%len(xff)])
+	h.Set("X-Real-Ip", []string{"203.0.113.7", "not-an-ip", ""}[k%3])
+	h.Set("Forwarded", `for="[2001:db8::7]:4711";proto=https;by=203.0.113.43`)
+	h.Set("X-Request-Id", "same-on-every-connection")
+	h.Set("X-Correlation-Id", "same-on-every-connection")
+	h.Set("Traceparent", "00-0af7651916cd43dd8448eb211c80319c-b7ad6b7169203331-01")
+	h.Set("X-Request-Start", []string{"t=0", "t=99999999999999", "garbage"}[k%3])
+	h.Add("X-Forwarded-Proto", "https")
+	h.Add("X-Forwarded-Proto", "http")
+	return h
 }
 
 // ctlRelay is the far end of the control connection.
